@@ -70,12 +70,13 @@ structure St where
   aqOff : Nat            -- applyQueue.dbOffset
   closed : Bool
   down : Bool            -- OpenEngine failed after the last crash (the process could not come up)
+  ann : List Nat         -- ghost: every offset the binlog has announced through Engine.Commit so far (survives a crash)
 deriving DecidableEq, Repr
 
 def init (wait repl : Bool) (rest : List Rec) (len : Nat) : St :=
   { wait := wait, repl := repl, com := ⟨[], 0⟩, tx := ⟨[], 0⟩, dbo := 0, done := [], rest := rest, len := len, dur := 0,
     ci := 0, waitQ := [], ptx := false, acked := [], ackedW := [], hold := false, lc := false, q := false, aq := [],
-    aqOff := 0, closed := false, down := false }
+    aqOff := 0, closed := false, down := false, ann := [] }
 
 def pad4 (n : Nat) : Nat := (n + 3) / 4 * 4
 /-- fsbinlog.AddPadding(len(payload)); the harness' events are at least 12 bytes -/
@@ -144,6 +145,37 @@ def deliverApply (s : St) (n : Nat) : St × String :=
     let s' := applyDirect { s with rest := s.rest.drop n } (s.rest.take n)
     (s', s!"ret={s'.dbo} e=nil")
 
+/-- what the user's apply function consumes from a payload of `m` bytes: the leading event records that lie completely
+    inside it (it stops at a service record - unknown magic - and at a partial record - not enough data) -/
+def fitCount : Nat → List Rec → Nat
+  | _, [] => 0
+  | m, r :: t => if r.isEv && decide (r.ln ≤ m) then fitCount (m - r.ln) t + 1 else 0
+
+def badBuf (s : St) (m : Nat) : Bool := m == 0 || decide (s.len < rp s + m) || s.closed || s.ptx
+
+/-- error the engine returns with the new offset: nil if the payload was consumed completely, "short"
+    (ErrorNotEnoughData) if it ends with a partial event, "magic" (ErrorUnknownMagic) if a service record follows -/
+def bufErr (left : Nat) (next : List Rec) : String :=
+  if left = 0 then "nil"
+  else match next with
+    | [] => "short"
+    | r :: _ => if r.isEv || decide (left < 4) then "short" else "magic"
+
+/-- the reader hands `Engine.Apply` the next `m` bytes of the stream, wherever that cuts it (arbitrary chunking): the
+    engine applies (or parks) the complete leading events and reports how far it got; the reader carries the rest over.
+    A payload that starts with a partial event or a service record is consumed up to offset +0: outside the queue the
+    offset row is still rewritten (with the unchanged offset), inside it an empty body is parked. -/
+def deliverBuf (s : St) (m : Nat) : St × String :=
+  if badBuf s m then (s, "bad-op")
+  else if !readerOK s (fitCount m s.rest) then (s, "mismatch")
+  else if queueCond s then
+    let s' := enqueue { s with rest := s.rest.drop (fitCount m s.rest) } (.body (s.rest.take (fitCount m s.rest)))
+                (total (s.rest.take (fitCount m s.rest)))
+    (s', s!"ret={s'.aqOff} e={bufErr (m - total (s.rest.take (fitCount m s.rest))) (s.rest.drop (fitCount m s.rest))}")
+  else
+    let s' := applyDirect { s with rest := s.rest.drop (fitCount m s.rest) } (s.rest.take (fitCount m s.rest))
+    (s', s!"ret={s'.dbo} e={bufErr (m - total (s.rest.take (fitCount m s.rest))) (s.rest.drop (fitCount m s.rest))}")
+
 def badSkip (s : St) (n : Nat) : Bool :=
   match s.rest with
   | [] => true
@@ -174,12 +206,15 @@ def notify (s : St) (k : Nat) : St :=
 def delayedCommit (s : St) (k : Nat) : Bool := s.q && decide (s.dbo ≤ k)
 def parkedCommit (s : St) (k : Nat) : Bool := s.ptx && decide (s.dbo ≤ k)
 
+/-- ghost bookkeeping of a Commit(k): the fsynced prefix and the list of announced offsets -/
+def announce (s : St) (k : Nat) : St := { s with dur := max s.dur k, ann := s.ann ++ [k] }
+
 /-- `Engine.Commit(k)` delivered by the binlog (after its fsync) -/
 def commitStep (s : St) (k : Nat) : St :=
-  if k < s.ci then { s with dur := max s.dur k }
-  else if delayedCommit s k then flushQ { notify { s with dur := max s.dur k } k with com := s.tx, lc := true }
-  else if parkedCommit s k then { notify { s with dur := max s.dur k } k with com := s.tx, ptx := false }
-  else notify { s with dur := max s.dur k } k
+  if k < s.ci then announce s k
+  else if delayedCommit s k then flushQ { notify (announce s k) k with com := s.tx, lc := true }
+  else if parkedCommit s k then { notify (announce s k) k with com := s.tx, ptx := false }
+  else notify (announce s k) k
 
 /-! ### engine.go: doWithoutWait -/
 
@@ -267,7 +302,7 @@ def crashStep (s : St) (d : Nat) : St :=
     done := upTo s.com.off s.done,
     rest := keptRest s d,
     len := d, dur := s.dur, ci := 0, waitQ := [], ptx := false, acked := s.acked, ackedW := s.ackedW,
-    hold := false, lc := false, q := false, aq := [], aqOff := 0, closed := false, down := false }
+    hold := false, lc := false, q := false, aq := [], aqOff := 0, closed := false, down := false, ann := s.ann }
 
 /-- The same kill, but it hit the binlog writer inside write(2): the last file ends with a proper prefix of one more
     record. On restart the reader stops at the last complete record, then fsbinlog's writer.initChunk refuses the file
@@ -287,6 +322,8 @@ inductive Op
   | tx
   | dApply (n : Nat)            -- reader delivers the next n event records
   | dSkip (n : Nat)             -- reader delivers a service record of n bytes
+  | dApplyBuf (m : Nat)         -- reader delivers the next m bytes, cut anywhere (partial records are carried over)
+  | view                        -- a reader (Engine.View, RO connection) looks at the database
   | append (recs : List (Bool × Nat × Nat))   -- live replica: the master wrote records (isEv, id, ln); they reach the reader
   | hold (b : Bool)
   | close
@@ -311,6 +348,8 @@ def step (s : St) : Op → St × String
   | .tx => txStep s
   | .dApply n => deliverApply s n
   | .dSkip n => deliverSkip s n
+  | .dApplyBuf m => deliverBuf s m
+  | .view => (s, fmtDB s.com)
   | .append l => if busy s || !l.all (fun x => decide (0 < x.2.2)) then (s, "bad-op") else (appendStep s l, "ok")
   | .hold b => ({ s with hold := b }, "ok")
   | .close => closeStep s
